@@ -167,6 +167,42 @@ def check(ctx):
                         if isinstance(x, (ast.GeneratorExp, ast.ListComp, ast.SetComp, ast.DictComp)):
                             if any(is_self_attr(y, "monitors_") for gen in x.generators for y in ast.walk(gen.iter)):
                                 owned = True
+            # ... and the test must say "no other observable still holds it", whichever way it is written
+            def holders(e, depth=0):
+                """'some' = e is true iff some other group holds the monitor, 'none' = iff none does, None = not such a test"""
+                if isinstance(e, ast.UnaryOp) and isinstance(e.op, ast.Not):
+                    v = holders(e.operand, depth)
+                    return {"some": "none", "none": "some"}.get(v)
+                if isinstance(e, ast.Call) and isinstance(e.func, ast.Name) and e.func.id == "any" and e.args \
+                        and isinstance(e.args[0], (ast.GeneratorExp, ast.ListComp)):
+                    el = e.args[0].elt
+                    if isinstance(el, ast.Compare) and len(el.ops) == 1:
+                        if isinstance(el.ops[0], (ast.Is, ast.Eq)):
+                            return "some"
+                        if isinstance(el.ops[0], (ast.IsNot, ast.NotEq)):
+                            return "wrong"
+                    return None
+                if isinstance(e, ast.Compare) and len(e.ops) == 1 and isinstance(e.ops[0], (ast.In, ast.NotIn)):
+                    return "some" if isinstance(e.ops[0], ast.In) else "none"
+                if isinstance(e, ast.Name) and depth < 3:
+                    for d_ in _expand_names(e, f.node):
+                        if d_ is not e:
+                            v = holders(d_, depth + 1)
+                            if v:
+                                return v
+                return None
+            polarity = None
+            for t, lab in g.guards_of(r):
+                v = holders(t)
+                if v in ("some", "none"):
+                    polarity = v if lab == "T" else {"some": "none", "none": "some"}[v]
+                elif v == "wrong":
+                    polarity = "wrong"
+            if owned:
+                ctx.ob("C15.e", f"MonitorPool.{mname}: the monitor is released exactly when no other observable holds it", polarity == "none",
+                       "" if polarity == "none" else
+                       "the release test has the wrong polarity (or compares with `is not`): a monitor still shared with another cell is deregistered - "
+                       "and one that nobody holds any more keeps its hooks", P.loc(f, r.ast), None)
             ctx.ob("C15.e", f"MonitorPool.{mname}: release of a possibly shared monitor", owned,
                    "deregister() is control-dependent on a test over the other observables' monitor groups" if owned else
                    "deregister() is unconditional: a pooled monitor shared with another cell stops recording for that cell too",
